@@ -64,7 +64,7 @@ func main() {
 	// keep it visible as a note, not as a C05 violation.
 	kept := ctx.Res.Violations[:nBefore]
 	for _, v := range ctx.Res.Violations[nBefore:] {
-		if strings.HasPrefix(v.Key, "update-differs:getpath:") {
+		if v.Key == c02oracle.StringIndexKey {
 			ctx.Res.Notes = append(ctx.Res.Notes, "c02oracle (not an isolation matter, reported under C02): "+v.Key+" — "+v.What)
 			continue
 		}
